@@ -34,7 +34,7 @@ CHECKS = {
          "exploration: search_with_offset / search / max_response_time are compared with a linear scan on synthetic staircase workloads over all supply kinds, offsets inside the busy window and limits around the solution; in addition every search executed inside FP/EDF/FIFO analyses is checked for leastness / true divergence against the analysis' own right-hand side, and the item sequence seen by max_response_time is matched with the returned value.",
          "the supply object's provided_service is the definition of 'service guaranteed' (its exactness is C09); in-situ Err checks with limit > 3000 are sampled", "DESIGN.md §5 C08"),
  "C09": ("runtime monitor: differential oracle = exhaustive enumeration of budget placements (small P complete) + random concrete reservation timelines",
-         "exploration: provided_service is compared for equality with the minimum over ALL budget placements for every (Q,D,P) with P<=6 (thorough 9) and every window length up to 3P+2 (a complete enumeration of that finite space), and on sampled window lengths for random (Q,D,P) up to P=20,000 (thorough 40,000, budget 1 in a quarter of the cases); windows and demands up to 2^60 through the period structure; service_time (specialised and trait default) is compared with a linear-scan inverse; concrete random placements are checked to deliver at least the promised service. Held-on-what-was-observed, not a proof for all P.",
+         "exploration: provided_service is compared for equality with the minimum over ALL budget placements for every (Q,D,P) with P<=6 (thorough 9) and every window length up to 3P+2 (a complete enumeration of that finite space), and on sampled window lengths for random (Q,D,P) up to P=20,000 (thorough 40,000, budget 1 in a quarter of the cases); windows and demands up to 2^60 through the period structure; reservations with periods of 2^32..2^45 against a closed form that is itself compared with the enumeration on every small case; service_time (specialised and trait default) is compared with a linear-scan inverse; concrete random placements are checked to deliver at least the promised service. Held-on-what-was-observed, not a proof for all P.",
          "trusts the harness's reservation semantics (exactly Q slots per period inside the first D slots, independent per period); for P>9 the per-period minimum is computed by counting instead of subset enumeration (cross-checked on all small cases).",
          "DESIGN.md §5 C09"),
  "C10": ("runtime monitor: execution + independent generative model of admissible event sequences; window counting oracle",
@@ -47,16 +47,16 @@ CHECKS = {
          "exploration: from_trace curves are compared with every window of the raw trace for every prefix length; conversions are compared pointwise with their source up to 20x the covered prefix (domination) and inside it (equality); delta_min_iter is compared with the dual computed by scanning.",
          "traces/conversions whose inferred prefix ends with distance 0 (unbounded process) are outside the domain; non-domination is first triaged against sub-additivity of the source", "DESIGN.md §5 C12"),
  "C13": ("runtime monitor: history monitor over shared clones (answers vs. independent super-additive closure and vs. fresh objects) + cache-snapshot hook H4; Miri on a reduced history in the thorough tier",
-         "exploration: eager extrapolation is compared with an independent closure and with admissible sequences of the original prefix; 50-300-operation query histories over 2-4 clones and live iterators of one ExtrapolatingCurve are monitored for history-independence, panics, append-only shared cache; first queries thousands of entries beyond the cache (big jumps), prefixes of 70-140 entries, queries before/after eager extension, analyses run twice on the same cached objects. One known finding (eager extrapolation can loosen the curve beyond the extended prefix).",
+         "exploration: eager extrapolation is compared with an independent closure and with admissible sequences of the original prefix; 50-300-operation query histories over 2-4 clones and live iterators of one ExtrapolatingCurve are monitored for history-independence, panics, append-only shared cache; first queries thousands of entries beyond the cache (big jumps), prefixes of 70-140 entries, queries before/after eager extension, analyses run twice on the same cached objects, steps pulled before and compared after every eager extension. One known finding (eager extrapolation can loosen the curve beyond the extended prefix).",
          "prefixes are non-decreasing, super-additive, last entry > 0", "DESIGN.md §5 C13"),
  "C14": ("runtime monitor: execution oracle (all runs of the raw cost trace) + history monitor with cache-snapshot hook H4; Miri on a reduced history in the thorough tier",
          "exploration: cost-model consistency for all models incl. from_iter curves from arbitrary (not sub-additive) vectors; from_trace curves vs. every run of consecutive jobs for every max_n; extrapolation vs. plain; ExtrapolatingCurve histories vs. independent sub-additive closure and fresh objects. One known finding (extrapolate can raise cost_of_jobs beyond the extended prefix).",
          "cumulative prefixes are non-decreasing and sub-additive with positive increments", "DESIGN.md §5 C14"),
  "C15": ("runtime monitor: differential oracle (log-space Poisson tails) + iteration-fuel hook H3 deciding termination",
-         "exploration: full grid rate x epsilon x mean (up to 5000) plus random points; quantile accepted iff it is the least n with tail <= epsilon (band for ties at machine precision); mass function compared to relative 1e-9; termination decided by a loop budget derived from the oracle's answer.",
+         "exploration: full grid rate x epsilon x mean (up to 5000) plus random points; quantile accepted iff it is the least n with tail <= epsilon (band for ties at machine precision); mass function compared to relative 1e-9; termination decided by a loop budget derived from the oracle's answer; a second model with the same rate and another epsilon is interleaved with every query; both public constructors; a few cases per run with means of 10^6..8*10^6 against a mode-anchored oracle.",
          "epsilon in [1e-13, 0.5] (below 1e-12 only for means <= 6)", "DESIGN.md §5 C15"),
  "C16": ("runtime monitor: differential recomputation from the public component models",
-         "exploration: RBF / Aggregate / Slice / boxed / nested / &, Rc wrappers over random (arrival, cost) parts: service_needed, job_cost_iter, least_wcet_in_interval, service_needed_by_n_jobs (monotone, capped, sum of n largest) and the per-component variant are recomputed from the parts.",
+         "exploration: RBF / Aggregate / Slice / boxed / nested / &, Rc wrappers over random (arrival, cost) parts (1-4 components, one composite in 25 with 17-24; job limits incl. usize::MAX): service_needed, job_cost_iter, least_wcet_in_interval, service_needed_by_n_jobs (monotone, capped, sum of n largest) and the per-component variant are recomputed from the parts.",
          "component values come from the library's component objects (C10/C14)", "DESIGN.md §5 C16"),
  "C17": ("runtime monitor: relational oracle over pairs of calls (base vs. single-parameter hardening; limit raised)",
          "exploration: ~870,000 (base, hardened) pairs per quick run over all fifteen analyses and all hardenings named by the property; supply pairs are confirmed pointwise on brute-force SBFs before use.",
